@@ -180,7 +180,11 @@ class Options:
             option_number += delta
             if len(rawdata) < length:
                 raise UnparsableMessage("Option announced but absent")
-            option = option_number.create_option(decode=rawdata[:length])
+            try:
+                option = option_number.create_option(decode=rawdata[:length])
+            except ValueError as e:
+                # eg. UnicodeDecodeError from a string option
+                raise UnparsableMessage("Option value can not be decoded") from e
             self.add_option(option)
             rawdata = rawdata[length:]
         return b""
